@@ -150,7 +150,8 @@ class Net:
 		self.tap = None       # optional callable(src, dst, payload)
 
 	def socket_module(self):
-		return VSocketModule(self)
+		self.sm = VSocketModule(self)
+		return self.sm
 
 	def lookup(self, dst):
 		s = self.bound.get(dst)
@@ -217,6 +218,7 @@ class VSelect:
 		self.stop = False
 		self.idle = threading.Event()
 		self.calls = 0
+		self.ready_returns = 0     # how often select() has reported something readable
 
 	def select(self, rlist, wlist, xlist, timeout = None):
 		with self.net.cond:
@@ -226,6 +228,7 @@ class VSelect:
 				ready = [s for s in rlist if s.q]
 				if ready:
 					self.idle.clear()
+					self.ready_returns += 1
 					return ready, [], []
 				self.idle.set()
 				if self.stop:
